@@ -97,20 +97,18 @@ def orphan_stats(ex, sw, st, n=1):
     hs = [sw.sym_hash(st, f"orphan{i}") for i in range(n)]
     sw.orphans = hs
     from iomodel import P
-    return VStruct("OrphanStats", [VVec([VSym(h, "H") for h in hs]), VVec([P("invalid", 0)]), VVec([]), VVec([]),
-                                   VVec([P("staging", 99)]), VInt(0, "usize"), VOpaque("duration"),
-                                   VStruct("Arc", [sw.cas])])
+    from structs import mk
+    return mk(ex, st, "OrphanStats", orphaned_blobs=VVec([VSym(h, "H") for h in hs]), invalid_files=VVec([P("invalid", 0)]),
+              missing_blobs=VVec([]), corrupted_blobs=VVec([]), staging_files=VVec([P("staging", 99)]), total_blobs=VInt(0, "usize"),
+              scan_duration=VOpaque("duration"), cas_inner=VStruct("Arc", [sw.cas]))
 
 
 def _orphan_ref(ex, sw, st, n=1):
     os_ = orphan_stats(ex, sw, st, n)
     cell = st.alloc(os_)
     # the Arc<CasInner> inside OrphanStats must alias the world's CasInner: re-point the world at it
-    sw.cas_ref = VRef(cell, (7, 0))
-    sw.index_ref = VRef(cell, (7, 0, 1))
-    sw.state_ref = VRef(cell, (7, 0, 1, 1, 0, 0))
-    sw.intents_ref = VRef(cell, (7, 0, 1, 3, 0))
-    sw.wal_ref = VRef(cell, (7, 0, 1, 2, 0))
+    from structs import fidx
+    sw.set_refs(ex, cell, (fidx(ex, "OrphanStats", "cas_inner"), 0))
     return VRef(cell)
 
 
@@ -121,8 +119,10 @@ def mk_config(ex, sw, st):
     mode = ex.fresh("config_async", "bool")
     sw.config_N, sw.config_pre, sw.config_async = n.t, pre, mode
     sync = VEnum("SyncMode", z3.If(mode, 1, 0), {0: [], 1: []})
-    return VStruct("Config", [sync, n, VBool(pre), VBool(ex.fresh("scan", "bool")), VBool(ex.fresh("verify", "bool")),
-                              VBool(ex.fresh("failint", "bool"))])
+    from structs import mk
+    return mk(ex, st, "Config", sync_mode=sync, num_ops_per_wal=n, pre_create_cas_dirs=VBool(pre),
+              scan_orphans_on_startup=VBool(ex.fresh("scan", "bool")), verify_blob_integrity=VBool(ex.fresh("verify", "bool")),
+              fail_on_integrity_errors=VBool(ex.fresh("failint", "bool")))
 
 
 def open_new(ex, sw, st):
